@@ -383,7 +383,7 @@ let run_conf ws =
   String.concat " | " (List.map (function
     | CvNA -> "na"
     | CvBad w -> "bad:" ^ ns w
-    | CvOk l -> "ok:" ^ String.concat " " (List.sort compare (List.map cmsg_str l)))
+    | CvOk (pr, l) -> (if pr then "ok+:" else "ok:") ^ String.concat " " (List.sort compare (List.map cmsg_str l)))
     (conf_case b (nat_of_int fuel) ich cs))
 
 let run_case line =
